@@ -618,6 +618,17 @@ def _factor_checks(rep: Report, plan: dict[str, Any], ref: R.RefKFAC,
                 rep.bad('C04.factor_dtype', rank=r, layer=n, factor=f,
                         got=str(got.dtype), want=want_fdtype)
             e = R.rel_err(got, want)
+            if want_fdtype == 'float16' and e > tol and bool(
+                    torch.isfinite(got).all()):
+                # below 2^-14 float16 is subnormal (absolute, not relative,
+                # precision) and below 2^-24 it is zero: squares of small
+                # output gradients legitimately underflow. Measure against
+                # a floor of one smallest-normal per row instead.
+                floor = got.shape[0] * 2.0 ** -14
+                e = min(e, float((got.to(R.F64) - want).norm()) / max(
+                    float(want.norm()), floor))
+                if e <= tol:
+                    rep.stats['float16_underflow_floor_used'] += 1
             if e > tol:
                 rep.bad('C04.recurrence', rank=r, layer=n, factor=f, err=e,
                         tol=tol, key=key, updates=ref.n_updates)
